@@ -71,23 +71,27 @@ def load_store(cpu, load, size, signed, t, n, offset, add, index, wback, literal
                 if cpu.iset == 'arm':
                     k.setR(t, ite(lor(us, aligned), data, P.ROR_C(data, 32, ite(aligned, 8, 8 * bits(address, 1, 0)))[0]))
                 else:
-                    k.UNKNOWN(lnot(lor(us, aligned)))
+                    # R[t] = bits(32) UNKNOWN: only the loaded register is unspecified - the access itself (address,
+                    # privilege, abort) and the write-back are as for an aligned access
                     k.setR(t, data)
+                    k.unknown_bits_R(t, ite(lor(us, aligned), 0, M32))
             cpu.cases([(t == 15, to_pc), (True, to_reg)])
         elif size == 2:
-            cpu.UNKNOWN(lnot(lor(us, bit(address, 0) == 0)))
             cpu.setR(t, sign_ext(data, 16) if signed else data)
+            cpu.unknown_bits_R(t, ite(lor(us, bit(address, 0) == 0), 0, M32))
         else:
             cpu.setR(t, sign_ext(data, 8) if signed else data)
     else:
         if size == 4:
             data = ite(t == 15, cpu.pc(), cpu.R(ite(t == 15, 0, t)))
             if cpu.iset != 'arm':
-                cpu.UNKNOWN(lnot(lor(us, bits(address, 1, 0) == 0)))
+                # MemU[address,4] = bits(32) UNKNOWN: the stored *value* is unspecified (taken from the implementation:
+                # oracle.unknown_store is what it wrote), the access - address, size, privilege, abort - is not
+                data = ite(lor(us, bits(address, 1, 0) == 0), data, cpu.st.get('oracle.unknown_store', 0) & M32)
             mem_write(cpu, 'U', address, 4, data, unpriv)
         elif size == 2:
-            cpu.UNKNOWN(lnot(lor(us, bit(address, 0) == 0)))
-            mem_write(cpu, 'U', address, 2, cpu.R(t) & 0xFFFF, unpriv)
+            data = ite(lor(us, bit(address, 0) == 0), cpu.R(t) & 0xFFFF, cpu.st.get('oracle.unknown_store', 0) & 0xFFFF)
+            mem_write(cpu, 'U', address, 2, data, unpriv)
         else:
             mem_write(cpu, 'U', address, 1, cpu.R(t) & 0xFF, unpriv)
         if not literal:
